@@ -120,10 +120,10 @@ theorem parseUnsigned_parts (neg : Bool) (ip fp : List Char) (tail : List Char) 
   have hne : ip.isEmpty = false := by cases ip with | nil => exact absurd rfl hip | cons a b => rfl
   have h1 : ¬ (fp.length > 28) := by omega
   have h2 : ¬ (dval (ip ++ fp) ≥ 2 ^ 96) := by omega
-  unfold parseUnsigned
+  unfold parseUnsigned parseCore
   rcases ht with ⟨rfl, rfl⟩ | rfl
-  · simp only [hspan1, List.isEmpty_nil, Bool.not_true, Bool.false_eq_true, if_false, hne, Bool.false_and, h1, h2]
-  · simp only [hspan1, hspan2, List.isEmpty_nil, Bool.not_true, Bool.false_eq_true, if_false, hne, Bool.false_and, h1, h2]
+  · simp only [hspan1, fracSpan, List.isEmpty_nil, Bool.not_true, Bool.false_eq_true, if_false, hne, Bool.false_and, h1, h2]
+  · simp only [hspan1, fracSpan, hspan2, List.isEmpty_nil, Bool.not_true, Bool.false_eq_true, if_false, hne, Bool.false_and, h1, h2]
 
 theorem parseDecText_decText (d : Dec) (h : decWf d) : parseDecText (decText d) = some d := by
   obtain ⟨hm, hs⟩ := h
